@@ -40,7 +40,7 @@ def plan(tier):
 
 
 def ncases(tier):
-    return 700 if tier == "quick" else 6000
+    return 1500 if tier == "quick" else 6000
 
 
 def gen_case(rng, i):
